@@ -364,8 +364,12 @@ Finish(C, r, upd) ==
 AdjustOp(C, r, s, a, isflow, fee, upd) ==
   Finish(C, [r EXCEPT !.st = AdjustSt(r.st, s, a, isflow, fee)], upd)
 
+\* (a date change books whatever is still pending on the old date first: what was
+\* traded or adjusted with update=False belongs to the date it was done on)
 UpdateOp(C, r, d) ==
-  IF d = r.st.t THEN RefreshR(C, r) ELSE RefreshR(C, [r EXCEPT !.st = Advance(C, r.st, d)])
+  IF d = r.st.t THEN RefreshR(C, r)
+  ELSE LET r0 == IF r.st.fresh \/ r.st.t = 0 THEN r ELSE RefreshR(C, r)
+       IN  RefreshR(C, [r0 EXCEPT !.st = Advance(C, r0.st, d)])
 
 AllocateOp(C, r, n, a, upd) == Finish(C, AllocNode(C, r, n, a, FALSE), upd)
 
